@@ -294,6 +294,32 @@ let spec_on (pid : string) c (mg : string list list) (ag : string list list) : s
       why = "sealed vs Reset instance" }
   | _ -> { ok = false; nontriv = false; why = "unknown property" }
 
+(* cross-check of the two graph definitions of forkless cause: spec/AbftSpec.v fc_graph (table driven, used
+   by the trace checkers) against spec/FcSpec.v fc_spec (fuelled DFS; the right-hand side of C05), on the
+   accepted events of the last epoch segment of the model's own run, small cases only *)
+let fc_defs_agree c (paired : (string * op option * string list) list) : bool =
+  match trace_of c paired with
+  | None -> true
+  | Some tr ->
+    let vals = ref (mk_vals c.vals0) and evs = ref [] in
+    List.iter (fun (o, ob) ->
+      match o, ob with
+      | OpP e, ObsP (None, bl, _, _) ->
+        evs := e :: !evs;
+        List.iter (fun b -> match b.b_seal with Some nv -> vals := nv; evs := [] | None -> ()) bl
+      | OpReset (_, raw), ObsReset _ -> vals := mk_vals raw; evs := []
+      | _ -> ()) tr;
+    let es = List.rev !evs in
+    let n = List.length es in
+    if n = 0 || n > 24 then true else begin
+      let v = !vals in
+      let g = List.fold_left (fun g e -> g_add g e) [] es in
+      let e_fc = List.fold_left (fun acc e -> (e.a_id, vev v e) :: acc) [] es in
+      let ws = List.map snd v and q = v_quorum v and nv = nat_of_int (List.length v) in
+      List.for_all (fun a -> List.for_all (fun b ->
+        fc_graph g v a.a_id b.a_id = fc_spec ws q nv e_fc a.a_id b.a_id) es) es
+    end
+
 let split_obs (obs : string list) : string list list * string list list =
   match split_on "||" obs with
   | [m] -> (if m = [] then [] else split_on ";" m), []
@@ -313,7 +339,8 @@ let eval_with (pid : string) (smp : n -> n list option) inp obs : verdict =
   let ig, iag = split_obs obs in
   let si = spec_on pid c ig iag in
   let sm = spec_on pid c mm ma in
-  { default_verdict with model_obs; spec_ok = Some si.ok; model_spec_ok = sm.ok; nontrivial = si.nontriv;
-    note = (if si.ok then "" else "spec(" ^ si.why ^ ") fails on impl") }
+  let defs_ok = (pid <> "C04") || fc_defs_agree c (pair_trace c.main mm) in
+  { default_verdict with model_obs; spec_ok = Some si.ok; model_spec_ok = sm.ok && defs_ok; nontrivial = si.nontriv;
+    note = (if not defs_ok then "fc_graph <> FcSpec.fc_spec on this DAG" else if si.ok then "" else "spec(" ^ si.why ^ ") fails on impl") }
 
 let main (pid : string) = Drv.run (eval_with pid sample)
